@@ -9,12 +9,20 @@ mod native {
         pub static FAILS: RefCell<Vec<String>> = RefCell::new(Vec::new());
         pub static ASSUME_FAILED: RefCell<Option<String>> = RefCell::new(None);
         pub static COVERS: RefCell<Vec<String>> = RefCell::new(Vec::new());
+        /// the solver's trace ends at the failing assertion: once its values are used up,
+        /// the rest of the harness is not part of the model and is ignored
+        pub static EXHAUSTED: RefCell<bool> = RefCell::new(false);
     }
     pub fn pop(n: usize) -> Vec<u8> {
-        VALS.with(|v| {
-            let x = v.borrow_mut().pop_front().expect("replay: model has too few values");
-            assert_eq!(x.len(), n, "replay: model value has wrong width");
-            x
+        VALS.with(|v| match v.borrow_mut().pop_front() {
+            Some(x) => {
+                assert_eq!(x.len(), n, "replay-infrastructure: model value has wrong width");
+                x
+            }
+            None => {
+                EXHAUSTED.with(|e| *e.borrow_mut() = true);
+                vec![0; n]
+            }
         })
     }
 }
@@ -25,7 +33,10 @@ pub fn load(vals: Vec<Vec<u8>>) {
     native::FAILS.with(|v| v.borrow_mut().clear());
     native::COVERS.with(|v| v.borrow_mut().clear());
     native::ASSUME_FAILED.with(|v| *v.borrow_mut() = None);
+    native::EXHAUSTED.with(|v| *v.borrow_mut() = false);
 }
+#[cfg(not(kani))]
+pub fn exhausted() -> bool { native::EXHAUSTED.with(|v| *v.borrow()) }
 #[cfg(not(kani))]
 pub fn failures() -> Vec<String> { native::FAILS.with(|v| v.borrow().clone()) }
 #[cfg(not(kani))]
@@ -84,7 +95,7 @@ pub fn assume(c: bool) {
     #[cfg(kani)]
     kani::assume(c);
     #[cfg(not(kani))]
-    if !c {
+    if !c && !exhausted() {
         native::ASSUME_FAILED.with(|v| {
             let mut v = v.borrow_mut();
             if v.is_none() {
@@ -108,7 +119,7 @@ macro_rules! chk {
 }
 #[cfg(not(kani))]
 pub fn note_fail(m: &str) {
-    if assume_failed().is_none() {
+    if assume_failed().is_none() && !exhausted() {
         native::FAILS.with(|v| v.borrow_mut().push(m.to_string()));
     }
 }
